@@ -147,12 +147,8 @@ theorem abs_insert : ∀ (fuel : Nat) (n : WN) (t : PT) (key : List Nib), abs n 
         simp only [abs, Option.some.injEq] at ha; subst ha
         simp only [insert, PT.insert]
         split <;> simp [abs]
-      | short k h c d tc =>
-        obtain ⟨t', hc, rfl⟩ := abs_short_some.mp ha
-        simp [insert, abs, PT.insert]
-      | routing h ch cw d tc =>
-        obtain ⟨f, hf, rfl⟩ := abs_routing_some.mp ha
-        simp [insert, abs, PT.insert]
+      | short k h c d tc => simp [insert] at he
+      | routing h ch cw d tc => simp [insert] at he
     | cons k ks =>
       cases n with
       | hashRef h cw => simp [abs] at ha
@@ -183,6 +179,9 @@ theorem abs_insert : ∀ (fuel : Nat) (n : WN) (t : PT) (key : List Nib), abs n 
           exact abs_short_some.mpr ⟨_, ih _ _ _ hc he, rfl⟩
         · rename_i hp
           simp only [hp, if_false] at he
+          by_cases hq : p = (k :: ks).length
+          · rw [if_pos hq] at he; simp at he
+          rw [if_neg hq] at he ⊢
           generalize nibOf (sk.getD p 0) = o1 at he ⊢
           generalize (k :: ks)[p]? = o2 at he ⊢
           cases o1 with
@@ -214,6 +213,7 @@ theorem insert_short_eq_m (fuel : Nat) (sk h : Bytes) (c : WN) (d tc : Bool) (ke
        if p = sk.length then
          let r := insert hasDb s fuel c (key.drop p) value
          { node := .short sk h r.node true tc, change := r.change, err := r.err, td := r.td }
+       else if p = key.length then { node := .short sk h c true tc, err := some .invalidKey }
        else
          match nibOf (sk.getD p 0), key[p]? with
          | some i1, some i2 =>
@@ -246,7 +246,8 @@ theorem insert_short_split_m (fuel : Nat) (a s' K' : List Nib) (i1 i2 : Nib) (hn
   rw [insert_short_eq_m _ _ _ _ _ _ _ (by simp)]
   simp only [cp_split _ _ _ _ _ hne]
   have h1 : a.length ≠ ((a ++ i1 :: s').map nb).length := by simp
-  simp only [h1, if_false]
+  have h1' : a.length ≠ (a ++ i2 :: K').length := by simp
+  simp only [h1, h1', if_false]
   have h2 : ((a ++ i1 :: s').map nb).getD a.length 0 = nb i1 := by simp [List.getD]
   have h3 : (a ++ i2 :: K')[a.length]? = some i2 := by simp
   rw [h2, h3, nibOf_nb]
@@ -376,8 +377,8 @@ theorem noEmpty_insert : ∀ (fuel : Nat) (n : WN) (t : PT) (key : List Nib), ab
       | value vh vv vw vd =>
         simp only [insert]
         split <;> simp [NoEmpty]
-      | short k h c d tc => simp [insert, NoEmpty]
-      | routing h ch cw d tc => simp [insert, NoEmpty]
+      | short k h c d tc => simp [insert] at he
+      | routing h ch cw d tc => simp [insert] at he
     | cons k ks =>
       cases n with
       | hashRef h cw => simp [abs] at ha
@@ -404,6 +405,9 @@ theorem noEmpty_insert : ∀ (fuel : Nat) (n : WN) (t : PT) (key : List Nib), ab
           exact ⟨by simp, ih _ _ _ hc hn.2 he⟩
         · rename_i hp
           simp only [hp, if_false] at he
+          by_cases hq : p = (k :: ks).length
+          · rw [if_pos hq] at he; simp at he
+          rw [if_neg hq] at he ⊢
           generalize nibOf (sk.getD p 0) = o1 at he ⊢
           generalize (k :: ks)[p]? = o2 at he ⊢
           cases o1 with
@@ -824,15 +828,31 @@ theorem good_delete {H : Bytes → Bytes} {hasDb : Bool} {s : Store} {fuel m : N
   · obtain ⟨h7, h8⟩ := h6 g.winv
     exact .inr ⟨h1, t', h4, ⟨h5, h7, h3, uniform_delete g.uniform hk h4⟩, h8⟩
 
-/-- without a domain hypothesis statement 3 fails: an empty key at a routing node replaces the node by the value and
-reports the value's weight as the change -/
-theorem winv_insert_counterexample (hasDb : Bool) (s : Store) :
+/-- without a domain hypothesis statement 3 used to fail: an empty key at a routing node replaced the node by the value
+and reported the value's weight as the change.  Since fix 5dc7120 such an insert is rejected with `invalidKey` and
+the node (hence its weight) is left unchanged, nothing is reported as change or queued for deletion. -/
+theorem insert_empty_key_at_branch_rejected (hasDb : Bool) (s : Store) (fuel : Nat) (h : Bytes) (ch : Nib → WN)
+    (w : Nat) (d tc : Bool) (value : WN) :
+    insert hasDb s (fuel + 1) (.routing h ch w d tc) [] value =
+      { node := .routing h ch w d tc, change := 0, err := some .invalidKey, td := [] } := by
+  cases value <;> rfl
+
+/-- the same for an empty key at a short node -/
+theorem insert_empty_key_at_short_rejected (hasDb : Bool) (s : Store) (fuel : Nat) (sk h : Bytes) (c : WN)
+    (d tc : Bool) (value : WN) :
+    insert hasDb s (fuel + 1) (.short sk h c d tc) [] value =
+      { node := .short sk h c d tc, change := 0, err := some .invalidKey, td := [] } := by
+  cases value <;> rfl
+
+/-- the former counterexample to statement 3 (a well-formed branch, empty key): now rejected, node and weight kept -/
+theorem insert_empty_key_at_branch_rejected_example (hasDb : Bool) (s : Store) :
     ∃ (n : WN) (t : PT), WInv n ∧ abs n = some t ∧ NoEmpty n ∧
-      (insert hasDb s 1 n [] (.value [] [2] 3 true)).err = none ∧
-      ((insert hasDb s 1 n [] (.value [] [2] 3 true)).node.weight : Int) ≠
+      (insert hasDb s 1 n [] (.value [] [2] 3 true)).err = some .invalidKey ∧
+      (insert hasDb s 1 n [] (.value [] [2] 3 true)).node = n ∧
+      ((insert hasDb s 1 n [] (.value [] [2] 3 true)).node.weight : Int) =
         n.weight + (insert hasDb s 1 n [] (.value [] [2] 3 true)).change := by
   refine ⟨.routing [] (upd noCh 0 (.value [] [1] 5 true)) 5 true false, _,
-    ?_, abs_routing_of (abs_upd 0 abs_noCh rfl), ?_, rfl, ?_⟩
+    ?_, abs_routing_of (abs_upd 0 abs_noCh rfl), ?_, ?_⟩
   · refine ⟨winv_upd 0 (fun _ => trivial) trivial, ?_⟩
     have e2 := sum_upd WN.weight noCh 0 (.value [] [1] 5 true)
     have e3 := sum_noCh WN.weight rfl
@@ -840,6 +860,7 @@ theorem winv_insert_counterexample (hasDb : Bool) (s : Store) :
     have e6 : (WN.value [] [1] 5 true).weight = 5 := rfl
     omega
   · exact noEmpty_upd 0 (fun _ => ⟨by simp [noCh], trivial⟩) ⟨by simp, trivial⟩
-  · simp [insert, WN.weight]
+  · rw [insert_empty_key_at_branch_rejected]
+    exact ⟨rfl, rfl, by simp⟩
 
 end Verif.Wmpt
